@@ -49,8 +49,11 @@ def build_las(desc):
             las.well[m].unit = desc["strt_unit"]
     if "null" in desc:
         las.well["NULL"].value = val(desc["null"])
-    for m, u, v, d in desc.get("version", []):
-        las.version.append(HeaderItem(m, u, val(v), d))
+    for k, (m, u, v, d) in enumerate(desc.get("version", [])):
+        if desc.get("version_front"):
+            las.version.insert(k, HeaderItem(m, u, val(v), d))  # items in FRONT of VERS/WRAP/DLM: the order is content
+        else:
+            las.version.append(HeaderItem(m, u, val(v), d))
     for m, u, v, d in desc.get("well", []):
         las.well.append(HeaderItem(m, u, val(v), d))
     for m, u, v, d in desc.get("params", []):
